@@ -24,7 +24,17 @@ struct Cb {
 	explicit Cb(uint32_t s) : slot(s) {}
 	void operator()(uint32_t a) const { g_tr.add(slot, a, 0); }
 };
+#ifdef EQUIV
+// a Map policy whose key equivalence is coarser than operator== of the Event type (a case-insensitive comparator, say): events 2 and 3 are
+// the same event for the dispatcher. Listeners are added under 3 and removed through the remover under 2: removal detaches at once all the same.
+struct HalfLess { bool operator()(int a, int b) const { return a / 2 < b / 2; } };
+template <typename K_, typename V_> using EquivMap = std::map<K_, V_, HalfLess>;
+struct Pol { using Threading = VMutexOnlyThreading; using Callback = Cb; template <typename K_, typename V_> using Map = EquivMap<K_, V_>; };
+#define EVR 2
+#else
 struct Pol { using Threading = VMutexOnlyThreading; using Callback = Cb; };
+#define EVR EV
+#endif
 #if TK == 0
 using Target = eventpp::CallbackList<void(uint32_t), Pol>;
 #elif TK == 1
@@ -96,7 +106,7 @@ static bool r_remove(int r, const Handle & h) {
 #if TK == 0
 	return g->r[r]->remove(h);
 #else
-	return g->r[r]->removeListener(EV, h);
+	return g->r[r]->removeListener(EVR, h);
 #endif
 }
 static void r_retarget(int r, int t) {
